@@ -16,7 +16,7 @@ func init() { register("C07", checkC07) }
 
 func dnsPkgFuncs(w *World) []*ssa.Function {
 	var out []*ssa.Function
-	for fn := range allModuleFuncs(w, w.SSA()) {
+	for _, fn := range sortedModuleFuncs(w, w.SSA()) {
 		f := fn
 		for f.Parent() != nil {
 			f = f.Parent()
@@ -1062,7 +1062,7 @@ func c07Bookkeeping(w *World, r *Report) {
 	{
 		bad := ""
 		assigned, inc := false, false
-		for fn := range allModuleFuncs(w, w.SSA()) {
+		for _, fn := range sortedModuleFuncs(w, w.SSA()) {
 			if ownerNamed(fn) != outQ {
 				continue
 			}
@@ -1132,7 +1132,7 @@ func c07Bookkeeping(w *World, r *Report) {
 			}
 			return false
 		}
-		for fn := range allModuleFuncs(w, w.SSA()) {
+		for _, fn := range sortedModuleFuncs(w, w.SSA()) {
 			if ownerNamed(fn) != outQ {
 				continue
 			}
@@ -1236,7 +1236,7 @@ func c07Bookkeeping(w *World, r *Report) {
 								}
 							}
 							ncall, all := 0, true
-							for caller := range allModuleFuncs(w, w.SSA()) {
+							for _, caller := range sortedModuleFuncs(w, w.SSA()) {
 								for _, c := range callsIn(caller) {
 									if c.Common().StaticCallee() == fn && idx >= 0 && idx < len(c.Common().Args) {
 										ncall++
@@ -1736,7 +1736,7 @@ func errGuardedFieldReads(w *World, r *Report, rule, sink, consequence string) {
 		pos string
 	}
 	sites := map[string]*site{}
-	for fn := range allModuleFuncs(w, w.SSA()) {
+	for _, fn := range sortedModuleFuncs(w, w.SSA()) {
 		f0 := fn
 		for f0.Parent() != nil {
 			f0 = f0.Parent()
@@ -1945,7 +1945,7 @@ func c07PollerClosesOnVerdictOnly(w *World, r *Report) {
 
 // startedWithGo: fn (or a closure nested in it is not considered) is the target of a go statement somewhere in the module.
 func startedWithGo(w *World, fn *ssa.Function) bool {
-	for g := range allModuleFuncs(w, w.SSA()) {
+	for _, g := range sortedModuleFuncs(w, w.SSA()) {
 		for _, c := range callsIn(g) {
 			gs, ok := c.(*ssa.Go)
 			if !ok {
@@ -1965,7 +1965,7 @@ func startedWithGo(w *World, fn *ssa.Function) bool {
 // pkgFuncs: the functions (closures included) of the module packages whose path has one of the given suffixes.
 func pkgFuncs(w *World, suffixes ...string) []*ssa.Function {
 	var out []*ssa.Function
-	for fn := range allModuleFuncs(w, w.SSA()) {
+	for _, fn := range sortedModuleFuncs(w, w.SSA()) {
 		f := fn
 		for f.Parent() != nil {
 			f = f.Parent()
